@@ -11,6 +11,8 @@ def main(path):
     mod = importlib.import_module("vf.props." + prop.lower())
     if hasattr(mod, "replay"):
         return mod.replay(rec)
+    if hasattr(mod, "sdir"):
+        mod.sdir()          # scratch directory the case's files live in
     c = rec["case"]
     case = Case(c.get("case_id") or "replay", c["ops"], c.get("meta"))
     keys = []
